@@ -16,15 +16,24 @@ pub mod utc;
 pub use utc::*;
 
 pub(super) fn fixed_timezone(offset: &str) -> String {
-    let gmt_offset = offset[2..offset.find(':').unwrap_or(3)].to_string();
+    // The offset is formatted as `+hh:mm` or `+hh:mm:ss`.
+    let hours = offset
+        .get(1..offset.find(':').unwrap_or(3))
+        .and_then(|hours| hours.parse::<u32>().ok())
+        .unwrap_or(0);
+    let whole_hours = offset
+        .find(':')
+        .and_then(|pos| offset.get(pos..))
+        .map_or(true, |rest| rest.bytes().all(|b| b == b':' || b == b'0'));
 
-    if gmt_offset == "0" {
+    // There are no fixed `Etc/GMT` zones for offsets that are not whole hours.
+    if hours == 0 || !whole_hours {
         return "UTC".into();
     }
     let gmt_sign = offset[0..1].to_string();
 
     format!(
-        "Etc/GMT{sign}{gmt_offset}",
+        "Etc/GMT{sign}{hours}",
         sign = if gmt_sign == "-" { "+" } else { "-" }
     )
 }
